@@ -16,6 +16,14 @@ type conv struct {
 	src   string
 	next  int
 	spans map[int]span
+	nnid  int
+	nids  map[int]span // call / break / continue / map-literal nodes: their source span
+}
+
+func (c *conv) nid(start, end int) int {
+	c.nnid++
+	c.nids[c.nnid] = span{start, end}
+	return c.nnid
 }
 
 func none() map[string]any { return map[string]any{"k": "none"} }
@@ -100,7 +108,8 @@ func (c *conv) node(n *ast.Node) map[string]any {
 			ks = append(ks, c.node(kv[0]))
 			vs = append(vs, c.node(kv[1]))
 		}
-		return map[string]any{"k": "map", "ks": ks, "vs": vs}
+		return map[string]any{"k": "map", "ks": ks, "vs": vs,
+			"nid": c.nid(int(n.MapLiteral().LBrace.Pos), int(n.MapLiteral().RBrace.Pos)+1)}
 	case ast.TypeParenExpr:
 		return map[string]any{"k": "paren", "e": c.node(n.ParenExpr().Param)}
 	case ast.TypeAttrExpr:
@@ -128,7 +137,8 @@ func (c *conv) node(n *ast.Node) map[string]any {
 		return map[string]any{"k": "assign", "op": string(e.Op), "ls": c.list(e.LHS), "rs": c.list(e.RHS)}
 	case ast.TypeCallExpr:
 		e := n.CallExpr()
-		return map[string]any{"k": "call", "f": e.Name, "as": c.list(e.Param)}
+		id := c.nid(int(e.NamePos.Pos), int(e.RParen.Pos)+1) // preorder: the call before its arguments
+		return map[string]any{"k": "call", "f": e.Name, "as": c.list(e.Param), "nid": id}
 	case ast.TypeSliceExpr:
 		e := n.SliceExpr()
 		return map[string]any{"k": "slice", "o": c.node(e.Obj), "s": c.opt(e.Start), "e": c.opt(e.End), "st": c.opt(e.Step), "c2": e.Colon2}
@@ -151,16 +161,23 @@ func (c *conv) node(n *ast.Node) map[string]any {
 		}
 		return map[string]any{"k": "forin", "v": v, "it": c.node(e.Iter), "b": c.block(e.Body)}
 	case ast.TypeBreakStmt:
-		return map[string]any{"k": "break"}
+		return map[string]any{"k": "break", "nid": c.nid(int(n.BreakStmt().Start.Pos), int(n.BreakStmt().Start.Pos)+5)}
 	case ast.TypeContinueStmt:
-		return map[string]any{"k": "continue"}
+		return map[string]any{"k": "continue", "nid": c.nid(int(n.ContinueStmt().Start.Pos), int(n.ContinueStmt().Start.Pos)+8)}
 	}
 	return map[string]any{"k": "unknown", "type": fmt.Sprint(n.NodeType)}
 }
 
 // convScript converts a parsed script; returns the statement list and the sid spans.
 func convScript(src string, ss ast.Stmts) ([]any, map[int]span) {
-	c := &conv{src: src, spans: map[int]span{}}
+	c := &conv{src: src, spans: map[int]span{}, nids: map[int]span{}}
 	out := c.stmts(ss, len(src))
 	return out, c.spans
+}
+
+// convScriptN also returns the spans of the nid-carrying nodes.
+func convScriptN(src string, ss ast.Stmts) ([]any, map[int]span, map[int]span) {
+	c := &conv{src: src, spans: map[int]span{}, nids: map[int]span{}}
+	out := c.stmts(ss, len(src))
+	return out, c.spans, c.nids
 }
